@@ -1074,6 +1074,27 @@ func (g *Gen) indexCatalogSweep() []E {
 			evs = append(evs, E{"op": "FindAll", "c": c, "q": []interface{}{[]interface{}{"sort", []interface{}{[]interface{}{B(f), dir}}}}})
 		}
 	}
+	// the dotted pair (n, n.a): a write below n.a through an updater that works in place, by id and in bulk, must
+	// move the entry of the index on n as well (the value of n is the object the updater has just changed)
+	if free := g.freeIds(c); len(free) >= 2 && g.chance(0.7) {
+		for _, f := range []string{"n", "n.a"} {
+			if !g.idx[c][f] {
+				g.idx[c][f] = true
+				evs = append(evs, E{"op": "CreateIndex", "c": c, "f": B(f)})
+			}
+		}
+		v1, v2, v3 := ANum(g.smallN[1], "i"), ANum(g.smallN[3], "i"), ANum(g.smallN[5%len(g.smallN)], "i")
+		evs = append(evs, E{"op": "Insert", "c": c, "docs": []interface{}{
+			AObj("_id", AStr(free[0]), "n", AObj("a", v1, "b", v1)), AObj("_id", AStr(free[1]), "n", AObj("a", v2))}})
+		g.noteInsert(c, free[0], free[1])
+		evs = append(evs, E{"op": "UpdateById", "c": c, "id": B(free[0]), "upd": []interface{}{"setInPlace", B("n.a"), v3}, "audit": true})
+		evs = append(evs, E{"op": "UpdateFunc", "c": c, "q": []interface{}{[]interface{}{"where", []interface{}{"un", "eq", B("n.a"), []interface{}{"lit", v2}}}},
+			"upd": []interface{}{"setInPlace", B("n.a"), v1}, "audit": true})
+		for _, dir := range []int{1, -1} {
+			evs = append(evs, E{"op": "FindAll", "c": c, "q": []interface{}{[]interface{}{"sort", []interface{}{[]interface{}{B("n"), dir}}}}})
+		}
+		evs = append(evs, E{"op": "Count", "c": c, "q": []interface{}{[]interface{}{"where", []interface{}{"un", "gte", B("n"), []interface{}{"lit", AObj("a", ANum(g.smallN[0], "i"))}}}}})
+	}
 	evs = append(evs, g.event("FindAll"), g.event("Derived"))
 	return evs
 }
